@@ -158,6 +158,25 @@ def env2_random(rng, n, kind="S2"):
 
 # ---------------------------------------------------------------- tables (C20)
 
+def far_ints():
+    """integers far outside every enumeration: around every power of two up to 2^62 (both signs), and the values a packed
+    or truncated key would confuse with a small one (a small value plus a multiple of 2^8, 2^16, 2^32)"""
+    out = set()
+    for k in range(6, 63):
+        for d in range(-2, 7):
+            out.add((1 << k) + d)
+            out.add(-((1 << k) + d))
+    for sh in (8, 16, 24, 32, 48):
+        for h in list(range(1, 41)) + [255, 256, 257, 65535]:
+            for lo in range(0, 7):
+                v = (h << sh) + lo
+                if v < (1 << 62):
+                    out.add(v)
+                    out.add(-v)
+    out.update([(1 << 63) - 1, -(1 << 63), (1 << 31) - 1, -(1 << 31), (1 << 32) - 1])
+    return sorted(out)
+
+
 def table_ops(rng, nrandom):
     """every Get / String / Value / validity of every metric: integers -3..10, every code that
     occurs anywhere in the library plus case variants, prefixes, padded forms, random strings"""
@@ -166,18 +185,29 @@ def table_ops(rng, nrandom):
     for c in list(strings):
         strings.update([c.lower(), c + " ", " " + c, c + c, c[:1], c[:-1], c + "\x00", c.capitalize(), c.swapcase()])
     strings.update(["", " ", "X", "ND", "x", "nd", "Not Defined", "0", "1", "unknown", "Unknown", "\xff", "Ｎ", "N\n"])
+    # every string of one or two capital letters; every (suffix of a metric name) + (a code of any metric): what a lookup
+    # keyed by name and code together would confuse with a real entry
+    AZ = "ABCDEFGHIJKLMNOPQRSTUVWXYZ"
+    strings.update(AZ)
+    strings.update(a + b for a in AZ for b in AZ)
+    for nme in vec.ALL_NAMES:
+        for k in range(0, len(nme) + 1):
+            for c in vec.ALL_CODES:
+                strings.add(nme[k:] + c)
+                strings.add(c + nme[k:])
     alpha = "ABCDEFGHIJKLMNOPQRSTUVWXYZabcdefghijklmnopqrstuvwxyz0123456789:/. "
     for _ in range(nrandom):
         n = 1 + rng.below(3)
         strings.add("".join(rng.choice(alpha) for _ in range(n)))
     strings = sorted(strings)
+    FAR = far_ints()
     for fam, ms in (("T3", vec.V3), ("T2", vec.V2)):
         for m in ms:
-            for v in range(-3, 11):
+            for v in list(range(-3, 11)) + FAR:
                 ops.append("%s %s val %d" % (fam, m[0], v))
             for s in strings:
                 ops.append("%s %s get %s" % (fam, m[0], hx(s)))
-    for v in range(-3, 11):
+    for v in list(range(-3, 11)) + FAR:
         ops.append("TV str %d" % v)
     for s in strings + ["CVSS:3.0", "CVSS:3.1", "CVSS:3.2", "CVSS:", "cvss:3.1", "CVSS:3.1:", ":3.1", "3.0", "3.1", "CVSS:2.0", "CVSS:3.10", "CVSS:4.0"]:
         ops.append("TV get %s" % hx(s))
